@@ -658,6 +658,14 @@ func (N *normaliser) descOf(pkg *packages.Package, call *ast.CallExpr) (*calleeD
 	if d := N.litCallee(pkg, call); d != nil {
 		return d, nil
 	}
+	// a function literal called on the spot
+	if fl, ok := ast.Unparen(call.Fun).(*ast.FuncLit); ok {
+		if sig, _ := pkg.TypesInfo.TypeOf(fl).(*types.Signature); sig != nil {
+			d := &calleeDesc{name: "function literal called in place", pkg: pkg, ftype: fl.Type, body: fl.Body, sig: sig, lit: fl}
+			d.reason = bodyReason(pkg, fl.Body, nil)
+			return d, nil
+		}
+	}
 	return nil, nil
 }
 
@@ -942,6 +950,379 @@ func (N *normaliser) typeText(pkg *packages.Package, file *ast.File, t types.Typ
 		}
 		return N.importName(pkg, file, p.Path())
 	})
+}
+
+// splitIfInit: `if INIT; COND {…}` whose COND (not its INIT) holds a call to expand becomes `{ INIT; if COND {…} }`
+// — the same scopes, and the call is now first in its statement, so that the next round expands it.
+func (N *normaliser) splitIfInit(p *packages.Package, s ast.Stmt) bool {
+	is, ok := s.(*ast.IfStmt)
+	if !ok || is.Init == nil {
+		return false
+	}
+	if c, _, _ := N.firstEligibleCall(p, is.Init); c != nil {
+		return false
+	}
+	if c, _, _ := N.firstEligibleCall(p, &ast.ExprStmt{X: is.Cond}); c == nil {
+		return false
+	}
+	fn := N.fset.Position(is.Pos()).Filename
+	ifOff := N.fset.Position(is.Pos()).Offset
+	io, ie := N.fset.Position(is.Init.Pos()).Offset, N.fset.Position(is.Init.End()).Offset
+	co := N.fset.Position(is.Cond.Pos()).Offset
+	end := N.fset.Position(is.End()).Offset
+	src := N.src(fn)
+	initText := string(src[io:ie])
+	N.edits[fn] = append(N.edits[fn],
+		textEdit{ifOff, 0, "{ " + initText + "\n"},
+		textEdit{io, co - io, ""},
+		textEdit{end, 0, "\n}"})
+	N.info.Inlined = append(N.info.Inlined, "if-init split at "+N.fset.Position(is.Pos()).String())
+	return true
+}
+
+// unrollTable: `for _, e := range TABLE { BODY }` over a literal table of structs (written in the range clause, or held
+// by a local that exists only for this loop) whose elements are built from names, literals and function literals
+// only, with e used in BODY solely through its fields: the loop is written out as one copy of BODY per element with
+// each `e.f` replaced by the element's expression for f. Nothing in BODY may leave or restart the loop (break,
+// continue, goto, labels). The copies do exactly what the iterations did, in the same order.
+func (N *normaliser) unrollTable(p *packages.Package, file *ast.File, fd *ast.FuncDecl, list []ast.Stmt, i int) bool {
+	rs, ok := list[i].(*ast.RangeStmt)
+	if !ok || rs.Value == nil || rs.Tok != token.DEFINE {
+		return false
+	}
+	if rs.Key != nil {
+		if k, isID := rs.Key.(*ast.Ident); !isID || k.Name != "_" {
+			return false
+		}
+	}
+	vid, ok := rs.Value.(*ast.Ident)
+	if !ok {
+		return false
+	}
+	vobj := p.TypesInfo.Defs[vid]
+	var lit *ast.CompositeLit
+	var def *ast.AssignStmt
+	switch x := ast.Unparen(rs.X).(type) {
+	case *ast.CompositeLit:
+		lit = x
+	case *ast.Ident:
+		// a local defined by the statement right before the loop and used nowhere else
+		tv, _ := p.TypesInfo.Uses[x].(*types.Var)
+		if tv == nil || i == 0 {
+			return false
+		}
+		as, isAs := list[i-1].(*ast.AssignStmt)
+		if !isAs || as.Tok != token.DEFINE || len(as.Lhs) != 1 || len(as.Rhs) != 1 {
+			return false
+		}
+		if id, isID := as.Lhs[0].(*ast.Ident); !isID || p.TypesInfo.Defs[id] != types.Object(tv) {
+			return false
+		}
+		uses := 0
+		for _, o := range p.TypesInfo.Uses {
+			if o == types.Object(tv) {
+				uses++
+			}
+		}
+		cl, isCL := as.Rhs[0].(*ast.CompositeLit)
+		if uses != 1 || !isCL {
+			return false
+		}
+		lit, def = cl, as
+	default:
+		return false
+	}
+	var elemT types.Type
+	switch t := p.TypesInfo.TypeOf(lit).Underlying().(type) {
+	case *types.Slice:
+		elemT = t.Elem()
+	case *types.Array:
+		elemT = t.Elem()
+	default:
+		return false
+	}
+	stt, ok := elemT.Underlying().(*types.Struct)
+	if !ok || len(lit.Elts) == 0 || len(lit.Elts) > 8 {
+		return false
+	}
+	// only worth it when a field holds a function literal that the body calls (otherwise the rules read the table)
+	hasLit := false
+	// BODY: e only as e.f; nothing that leaves or restarts the loop; no labels
+	okBody := true
+	type use struct {
+		sel *ast.SelectorExpr
+		f   int
+	}
+	var uses []use
+	ast.Inspect(rs.Body, func(n ast.Node) bool {
+		switch x := n.(type) {
+		case *ast.LabeledStmt:
+			okBody = false
+		case *ast.BranchStmt:
+			if x.Tok == token.GOTO || x.Tok == token.BREAK || x.Tok == token.CONTINUE {
+				okBody = false
+			}
+		case *ast.SelectorExpr:
+			if id, isID := x.X.(*ast.Ident); isID && p.TypesInfo.Uses[id] == vobj {
+				k := -1
+				for j := 0; j < stt.NumFields(); j++ {
+					if stt.Field(j).Name() == x.Sel.Name {
+						k = j
+					}
+				}
+				if k < 0 {
+					okBody = false
+				}
+				uses = append(uses, use{x, k})
+				return false
+			}
+		case *ast.Ident:
+			if p.TypesInfo.Uses[x] == vobj {
+				okBody = false // e used whole
+			}
+		}
+		return okBody
+	})
+	if !okBody || len(uses) == 0 {
+		return false
+	}
+	// per element, the expression of every field
+	pure := func(e ast.Expr) bool {
+		okE := true
+		ast.Inspect(e, func(n ast.Node) bool {
+			switch x := n.(type) {
+			case *ast.FuncLit:
+				return false
+			case *ast.CallExpr:
+				if tv, has := p.TypesInfo.Types[x.Fun]; !has || !tv.IsType() {
+					okE = false
+				}
+			case *ast.UnaryExpr:
+				if x.Op == token.ARROW {
+					okE = false
+				}
+			}
+			return okE
+		})
+		return okE
+	}
+	fields := make([][]ast.Expr, len(lit.Elts))
+	for r, el := range lit.Elts {
+		cl, isCL := el.(*ast.CompositeLit)
+		if !isCL {
+			return false
+		}
+		row := make([]ast.Expr, stt.NumFields())
+		for j, fe := range cl.Elts {
+			if kv, isKV := fe.(*ast.KeyValueExpr); isKV {
+				kid, isID := kv.Key.(*ast.Ident)
+				if !isID {
+					return false
+				}
+				for k := 0; k < stt.NumFields(); k++ {
+					if stt.Field(k).Name() == kid.Name {
+						row[k] = kv.Value
+					}
+				}
+				continue
+			}
+			if j < len(row) {
+				row[j] = fe
+			}
+		}
+		for _, u := range uses {
+			if row[u.f] == nil || !pure(row[u.f]) {
+				return false
+			}
+			if _, isFL := ast.Unparen(row[u.f]).(*ast.FuncLit); isFL {
+				hasLit = true
+			}
+		}
+		fields[r] = row
+	}
+	if !hasLit {
+		return false
+	}
+	fn := N.fset.Position(rs.Pos()).Filename
+	src := N.src(fn)
+	off := func(pos token.Pos) int { return N.fset.Position(pos).Offset }
+	bs, be := off(rs.Body.Lbrace), off(rs.Body.Rbrace)+1
+	var sb strings.Builder
+	for r := range lit.Elts {
+		var eds []textEdit
+		for _, u := range uses {
+			e := fields[r][u.f]
+			eds = append(eds, textEdit{off(u.sel.Pos()), off(u.sel.End()) - off(u.sel.Pos()), "(" + string(src[off(e.Pos()):off(e.End())]) + ")"})
+		}
+		sb.WriteString(applyEdits(src[bs:be], eds, bs))
+		sb.WriteString("\n")
+	}
+	start := off(rs.Pos())
+	if def != nil {
+		start = off(def.Pos())
+	}
+	N.edits[fn] = append(N.edits[fn], textEdit{start, off(rs.End()) - start, sb.String()})
+	N.info.Inlined = append(N.info.Inlined, "table loop written out at "+N.fset.Position(rs.Pos()).String())
+	return true
+}
+
+// hasClosureTables: some function ranges over a literal table whose elements hold function literals (the one shape
+// that is normalised although no function outside the vocabulary is involved).
+func hasClosureTables(pkgs []*packages.Package) bool {
+	found := false
+	for _, p := range pkgs {
+		if !strings.HasPrefix(p.PkgPath, "github.com/jhalter/mobius") {
+			continue
+		}
+		for _, f := range p.Syntax {
+			ast.Inspect(f, func(n ast.Node) bool {
+				cl, ok := n.(*ast.CompositeLit)
+				if !ok || found {
+					return !found
+				}
+				t := p.TypesInfo.TypeOf(cl)
+				if t == nil {
+					return true
+				}
+				var el types.Type
+				switch u := t.Underlying().(type) {
+				case *types.Slice:
+					el = u.Elem()
+				case *types.Array:
+					el = u.Elem()
+				default:
+					return true
+				}
+				if _, isStruct := el.Underlying().(*types.Struct); !isStruct {
+					return true
+				}
+				for _, e := range cl.Elts {
+					if ecl, ok := e.(*ast.CompositeLit); ok {
+						for _, fe := range ecl.Elts {
+							v := fe
+							if kv, ok := fe.(*ast.KeyValueExpr); ok {
+								v = kv.Value
+							}
+							if _, isFL := ast.Unparen(v).(*ast.FuncLit); isFL {
+								found = true
+							}
+						}
+					}
+				}
+				return true
+			})
+		}
+	}
+	return found
+}
+
+// switchToIf: a tagless switch one of whose case conditions holds a call to expand is written as the if / else-if
+// chain it abbreviates (`{ INIT; if A {…} else if B {…} else {…} }`), provided nothing in it breaks out of or falls
+// through the switch; the else-if steps then expose the call.
+func (N *normaliser) switchToIf(p *packages.Package, s ast.Stmt) bool {
+	sw, ok := s.(*ast.SwitchStmt)
+	if !ok || sw.Tag != nil || len(sw.Body.List) == 0 {
+		return false
+	}
+	has := false
+	for _, cc := range sw.Body.List {
+		for _, e := range cc.(*ast.CaseClause).List {
+			if c, _, _ := N.firstEligibleCall(p, &ast.ExprStmt{X: e}); c != nil {
+				has = true
+			}
+		}
+	}
+	if !has {
+		return false
+	}
+	// no break / fallthrough that belongs to this switch
+	safe := true
+	var scan func(n ast.Node, inner bool)
+	scan = func(n ast.Node, inner bool) {
+		ast.Inspect(n, func(m ast.Node) bool {
+			if !safe || m == nil {
+				return false
+			}
+			switch x := m.(type) {
+			case *ast.FuncLit:
+				return false
+			case *ast.ForStmt, *ast.RangeStmt, *ast.SwitchStmt, *ast.TypeSwitchStmt, *ast.SelectStmt:
+				if m != n {
+					// an unlabelled break inside belongs to that statement; a fallthrough cannot cross it
+					ast.Inspect(m, func(k ast.Node) bool {
+						if b, ok := k.(*ast.BranchStmt); ok && b.Label != nil {
+							_ = b // labelled branches keep their meaning
+						}
+						return true
+					})
+					return false
+				}
+			case *ast.BranchStmt:
+				if (x.Tok == token.BREAK && x.Label == nil) || x.Tok == token.FALLTHROUGH {
+					safe = false
+				}
+			}
+			return true
+		})
+	}
+	for _, cc := range sw.Body.List {
+		for _, st := range cc.(*ast.CaseClause).Body {
+			scan(st, false)
+		}
+	}
+	if !safe {
+		return false
+	}
+	fn := N.fset.Position(sw.Pos()).Filename
+	src := N.src(fn)
+	off := func(pos token.Pos) int { return N.fset.Position(pos).Offset }
+	var sb strings.Builder
+	sb.WriteString("{ ")
+	if sw.Init != nil {
+		sb.Write(src[off(sw.Init.Pos()):off(sw.Init.End())])
+		sb.WriteString("\n")
+	}
+	var def *ast.CaseClause
+	first := true
+	bodyOf := func(i int) string {
+		cc := sw.Body.List[i].(*ast.CaseClause)
+		end := off(sw.Body.Rbrace)
+		if i+1 < len(sw.Body.List) {
+			end = off(sw.Body.List[i+1].Pos())
+		}
+		return string(src[off(cc.Colon)+1 : end])
+	}
+	for i, c0 := range sw.Body.List {
+		cc := c0.(*ast.CaseClause)
+		if cc.List == nil {
+			def = cc
+			continue
+		}
+		var conds []string
+		for _, e := range cc.List {
+			conds = append(conds, "("+string(src[off(e.Pos()):off(e.End())])+")")
+		}
+		if !first {
+			sb.WriteString(" else ")
+		}
+		first = false
+		sb.WriteString("if " + strings.Join(conds, " || ") + " {" + bodyOf(i) + "}")
+	}
+	if def != nil {
+		for i, c0 := range sw.Body.List {
+			if c0 == ast.Stmt(def) {
+				if first {
+					sb.WriteString("{" + bodyOf(i) + "}")
+				} else {
+					sb.WriteString(" else {" + bodyOf(i) + "}")
+				}
+			}
+		}
+	}
+	sb.WriteString("\n}")
+	N.edits[fn] = append(N.edits[fn], textEdit{off(sw.Pos()), off(sw.End()) - off(sw.Pos()), sb.String()})
+	N.info.Inlined = append(N.info.Inlined, "switch written as if-chain at "+N.fset.Position(sw.Pos()).String())
+	return true
 }
 
 // siteIsTail: nothing of the enclosing function runs after the call but the hand-over of its results — `return f(…)`,
@@ -1540,7 +1921,7 @@ func normalise(repo string, vocab map[string]bool) (*normInfo, error) {
 		return nil, err
 	}
 	nf := newFunctions(pkgs, vocab)
-	if len(nf) == 0 && len(localClosures(pkgs)) == 0 {
+	if len(nf) == 0 && len(localClosures(pkgs)) == 0 && !hasClosureTables(pkgs) {
 		return nil, nil
 	}
 	tmp, err := os.MkdirTemp("", "hlnorm-")
@@ -1667,7 +2048,8 @@ func normalise(repo string, vocab map[string]bool) (*normInfo, error) {
 		N.substituteFuncGlobals(pkgs)
 		N.local = localClosures(pkgs)
 		N.resultLit = resultClosures(pkgs)
-		if len(N.cands) == 0 && len(N.litOf) == 0 && len(N.edits) == 0 && len(N.local) == 0 && len(N.resultLit) == 0 {
+		// (a round that changed something is always followed by another look: what it wrote may be reducible further)
+		if round == 1 && len(N.cands) == 0 && len(N.litOf) == 0 && len(N.edits) == 0 && len(N.local) == 0 && len(N.resultLit) == 0 && !hasClosureTables(pkgs) {
 			break
 		}
 		left := map[string]bool{}
@@ -1690,6 +2072,9 @@ func normalise(repo string, vocab map[string]bool) (*normInfo, error) {
 								N.next = list[i+1]
 							} else if len(fd.Body.List) > 0 && s == fd.Body.List[len(fd.Body.List)-1] && (fd.Type.Results == nil || len(fd.Type.Results.List) == 0) {
 								N.lastOfBody = true
+							}
+							if N.splitIfInit(p, s) || N.switchToIf(p, s) || N.unrollTable(p, f, fd, list, i) {
+								continue
 							}
 							if call, dd, recv := N.firstEligibleCall(p, s); call != nil {
 								if why := N.expand(p, f, fd, s, call, dd, recv); why == "" {
@@ -1726,6 +2111,9 @@ func normalise(repo string, vocab map[string]bool) (*normInfo, error) {
 								// block of its own (`else { <expansion>; if … }`), which changes nothing
 								if ei, isIf := x.Else.(*ast.IfStmt); isIf {
 									N.cur, N.next, N.lastOfBody = ei, nil, false
+									if N.splitIfInit(p, ei) {
+										return
+									}
 									if call, dd, recv := N.firstEligibleCall(p, ei); call != nil {
 										fn := N.fset.Position(ei.Pos()).Filename
 										so, eo := N.fset.Position(ei.Pos()).Offset, N.fset.Position(ei.End()).Offset
